@@ -367,15 +367,16 @@ pub(crate) async fn verif_dial_happy_eyeballs(
     dial_happy_eyeballs(dns_resolver, url, prefer_ipv6).await
 }
 
-/// Removes the next address to attempt, preferring `*next_is_v6`'s family and
-/// flipping it so families interleave; falls back to whatever is available.
+/// Removes the next address to attempt, preferring `*next_is_v6`'s family; falls back to
+/// whatever is available. Afterwards the *other* family than the one just taken is
+/// preferred, so families interleave also after a fallback.
 fn pop_family(addrs: &mut VecDeque<IpAddr>, next_is_v6: &mut bool) -> Option<IpAddr> {
     let idx = addrs
         .iter()
         .position(|ip| ip.is_ipv6() == *next_is_v6)
         .unwrap_or(0);
     let addr = addrs.remove(idx)?;
-    *next_is_v6 = !*next_is_v6;
+    *next_is_v6 = !addr.is_ipv6();
     Some(addr)
 }
 
